@@ -293,6 +293,10 @@ func (p *mgProg) coq() string {
 
 // ---------- generator ----------
 
+// mgCostBudget bounds the statically estimated work of one call of a generated function (in statement units; a
+// unit is a few VM instructions), so that runs stay far below the step limit of the harness.
+const mgCostBudget = 30000
+
 type mgVar struct {
 	id  int
 	typ string
@@ -309,6 +313,10 @@ type mgGen struct {
 	sigs   []mgSig // signature of every function of the program (fixed up front)
 	rec    bool    // the function being generated is the recursive one
 	feat   map[string]int
+	// static bound on the work of a run: cost of the function being generated, product of the iteration bounds of the
+	// enclosing loops, cost of the functions generated so far (callees are generated before their callers)
+	cost, mult float64
+	fcost      []float64
 }
 
 type mgSig struct {
@@ -488,9 +496,13 @@ func (g *mgGen) genCall(ret string, d int) *mgExpr {
 	if g.inLoop >= 2 { // keeps the cost of a run bounded (calls multiply through nested loops)
 		return nil
 	}
+	self := 1.0
+	if g.rec {
+		self = 8 // the body of the recursive template runs at most seven times
+	}
 	var cands []int
 	for j := g.fidx + 1; j < len(g.sigs); j++ {
-		if g.sigs[j].ret == ret {
+		if g.sigs[j].ret == ret && (g.cost+g.fcost[j]*g.mult)*self <= mgCostBudget {
 			cands = append(cands, j)
 		}
 	}
@@ -498,6 +510,7 @@ func (g *mgGen) genCall(ret string, d int) *mgExpr {
 		return nil
 	}
 	j := cands[g.r.intn(len(cands))]
+	g.cost += g.fcost[j] * g.mult
 	g.feat["call"]++
 	e := &mgExpr{K: "call", F: j}
 	for k, t := range g.sigs[j].ptypes {
@@ -560,6 +573,7 @@ func (g *mgGen) useStmt(v mgVar) *mgStmt {
 
 func (g *mgGen) stmt(budget *int) []*mgStmt {
 	*budget--
+	g.cost += 12 * g.mult
 	depth := len(g.scopes)
 	k := g.r.intn(24)
 	if depth > 4 && k >= 8 && k < 16 {
@@ -635,7 +649,10 @@ func (g *mgGen) stmt(budget *int) []*mgStmt {
 		}
 		g.bind(i)
 		g.inLoop++
+		saved := g.mult
+		g.mult *= float64(n)
 		s.S3 = &mgStmt{L: g.loopBody(g.block(1+g.r.intn(3), budget))}
+		g.mult = saved
 		g.inLoop--
 		return []*mgStmt{s}
 	case k < 15:
@@ -647,12 +664,15 @@ func (g *mgGen) stmt(budget *int) []*mgStmt {
 		g.bind(v)
 		fix := &mgStmt{K: "if", E: g.mkBin("Lt", mgVarE(v.id), mgLit(0)), S1: &mgStmt{L: []*mgStmt{{K: "asg", X: v.id, E: &mgExpr{K: "neg", A: mgVarE(v.id)}}}}}
 		g.inLoop++
+		savedMult := g.mult
+		g.mult *= 21 // the counter is below 2^20 and at least halved per iteration
 		infinite := g.r.bool()
 		body := []*mgStmt{{K: "opasg", X: v.id, Op: "Div", E: mgLit(int64(2 + g.r.intn(3)))}}
 		if infinite { // the exit test comes first, so that no continue can skip it
 			body = append(body, &mgStmt{K: "if", E: g.mkBin("Le", mgVarE(v.id), mgLit(1)), S1: &mgStmt{L: []*mgStmt{{K: "break"}}}})
 		}
 		body = g.loopBody(append(body, g.block(1+g.r.intn(2), budget)...))
+		g.mult = savedMult
 		g.inLoop--
 		var loop *mgStmt
 		if !infinite {
@@ -753,10 +773,13 @@ func mgGenProg(r *rng, feat map[string]int) (*mgProg, []mgSig) {
 		g.sigs[nf-1].ptypes = []string{"int", "bool", "int", "int", "bool", "int"}[:5+r.intn(2)]
 		g.sigs[nf-1].rec = false
 	}
-	for i := 0; i < nf; i++ {
+	g.fcost = make([]float64, nf)
+	g.prog.Funcs = make([]*mgFunc, nf)
+	for i := nf - 1; i >= 0; i-- { // callees first: their cost is known when a call is considered
 		sig := g.sigs[i]
 		f := &mgFunc{Ret: sig.ret}
 		g.f, g.fidx, g.rec = f, i, sig.rec
+		g.cost, g.mult = 20, 1
 		g.scopes = [][]mgVar{nil}
 		g.inLoop = 0
 		for j, t := range sig.ptypes {
@@ -799,7 +822,11 @@ func mgGenProg(r *rng, feat map[string]int) (*mgProg, []mgSig) {
 		}
 		body = append(body, &mgStmt{K: "return", E: ret})
 		f.Body = body
-		g.prog.Funcs = append(g.prog.Funcs, f)
+		g.prog.Funcs[i] = f
+		g.fcost[i] = g.cost
+		if sig.rec {
+			g.fcost[i] = g.cost * 8
+		}
 	}
 	return g.prog, g.sigs
 }
